@@ -27,6 +27,8 @@ struct Sent {
     mode: u8,
     has_close: bool,
     resolved: Option<&'static str>,
+    /// path the packet was sent on (None: cannot be told)
+    path: Option<u64>,
 }
 
 #[derive(Clone, Copy, Debug, Default)]
@@ -56,6 +58,7 @@ pub struct Shadow {
     pub losses_judged: u64,
     pub sends_judged: u64,
     pub pto_intervals: u64,
+    pub reductions: u64,
 }
 
 fn space_ix(s: Space) -> usize {
@@ -68,7 +71,7 @@ fn space_ix(s: Space) -> usize {
 
 pub fn shadow(v: &View) -> Shadow {
     let o = v.out;
-    let mut sh = Shadow { c09: vec![], c10: vec![], bif_checks: 0, losses_judged: 0, sends_judged: 0, pto_intervals: 0 };
+    let mut sh = Shadow { c09: vec![], c10: vec![], bif_checks: 0, losses_judged: 0, sends_judged: 0, pto_intervals: 0, reductions: 0 };
     for idx in 0..o.plan.conns.len() as u32 {
         for role in [Role::Client, Role::Server] {
             let Some(side) = v.side(idx, role) else { continue };
@@ -104,6 +107,28 @@ fn shadow_side(v: &View, idx: u32, role: Role, side: Side, sh: &mut Shadow) {
     }
     items.sort_by_key(|x| x.0);
 
+    // The packet_lost event names the *current* path, not the one the packet was sent on; the sent
+    // path is recovered from the destination port of the datagram that carried the packet: ports
+    // in order of first use are paths 0, 1 (plans of this family rebind a client at most once).
+    let dgrams: Vec<(u64, u16)> = o.obs.tx_dgrams.iter().filter(|d| d.ep == side.ep && d.conn == side.conn).map(|d| (d.seq, d.remote_port)).collect();
+    let mut ports: Vec<u16> = vec![];
+    for (_, p) in &dgrams {
+        if !ports.contains(p) {
+            ports.push(*p);
+        }
+    }
+    let max_path = o.obs.evs.iter().filter(|e| e.ep == side.ep && e.conn == side.conn).filter_map(|e| match &e.ev {
+        Ev::Metrics { path, .. } | Ev::MtuUpdated { path, .. } => Some(*path),
+        _ => None,
+    }).max().unwrap_or(0);
+    let paths_attributable = ports.len() <= 2 && max_path <= 1 && (ports.len() as u64) == max_path + 1;
+    let path_of = |seq: u64| -> Option<u64> {
+        if !paths_attributable {
+            return None;
+        }
+        let i = dgrams.partition_point(|d| d.0 < seq);
+        dgrams.get(i).and_then(|d| ports.iter().position(|p| *p == d.1)).map(|x| x as u64)
+    };
     let bbr = match role {
         Role::Client => o.plan.cfg.client.cc == 1,
         Role::Server => o.plan.cfg.server.cc == 1,
@@ -124,7 +149,9 @@ fn shadow_side(v: &View, idx: u32, role: Role, side: Side, sh: &mut Shadow) {
     let mut cwnd_stale = false; // an MTU update may have changed the window since the last metrics
     let mut recovery_allowance = false;
     // losses whose time threshold is judged with the metrics that follow them
-    let mut pending_loss: Vec<(usize, u64, u64, u64, u64)> = vec![]; // (space, pn, t_lost, t_sent, largest_acked)
+    let mut pending_loss: Vec<(usize, u64, u64, u64, u64, u64, Option<Rtt>)> = vec![]; // (space, pn, t_lost, t_sent, largest_acked, path, estimate of that path before)
+    let mut rtt_by_path: BTreeMap<u64, Rtt> = BTreeMap::new();
+    let mut latest_by_path: BTreeMap<u64, Vec<u64>> = BTreeMap::new();
     // PTO expiries: (pto_count, t_ns, base_without_ack_delay_ns)
     let mut pto_marks: Vec<(u32, u64, u64)> = vec![];
     let mut ack_eliciting_since_mark = false;
@@ -137,6 +164,8 @@ fn shadow_side(v: &View, idx: u32, role: Role, side: Side, sh: &mut Shadow) {
     };
 
     let mut pending_retry = false;
+    let mut last_reduction_ns: Option<u64> = None;
+    let mut congestion_signal = false;
     for (_, it) in &items {
         // RFC 9002 6.3: a client that accepts a Retry resets loss recovery and congestion control
         // state: everything sent so far is forgotten
@@ -200,7 +229,7 @@ fn shadow_side(v: &View, idx: u32, role: Role, side: Side, sh: &mut Shadow) {
                         if ae {
                             ack_eliciting_since_mark = true;
                         }
-                        if sent[sx].insert(*pn, Sent { t_ns: e.t_ns, len: *len as u64, cc, mode: *mode, has_close, resolved: None }).is_some() {
+                        if sent[sx].insert(*pn, Sent { t_ns: e.t_ns, len: *len as u64, cc, mode: *mode, has_close, resolved: None, path: path_of(e.seq) }).is_some() {
                             sh.c09.push(viol("C09", "c09.packet_number_sent_twice", "pn_reused", format!("{who}: {space:?} pn {pn} sent twice")));
                         }
                     }
@@ -249,7 +278,9 @@ fn shadow_side(v: &View, idx: u32, role: Role, side: Side, sh: &mut Shadow) {
                         match la {
                             Some(l) if l > *pn => {
                                 if l - *pn < 3 {
-                                    pending_loss.push((sx, *pn, e.t_ns, s.t_ns, l));
+                                    if let Some(sp) = s.path {
+                                        pending_loss.push((sx, *pn, e.t_ns, s.t_ns, l, sp, rtt_by_path.get(&sp).copied()));
+                                    }
                                     // judged against the previous metrics now, against the next ones later
                                 }
                             }
@@ -284,13 +315,14 @@ fn shadow_side(v: &View, idx: u32, role: Role, side: Side, sh: &mut Shadow) {
                     // the closing / draining states no longer run loss recovery
                     Ev::Closed { .. } => break,
                     Ev::Congestion { .. } => {
+                        congestion_signal = true;
                         recovery_allowance = true;
                     }
                     Ev::MtuUpdated { mtu, .. } => {
                         mtu_hist.push(*mtu as u64);
                         cwnd_stale = true;
                     }
-                    Ev::Metrics { min_rtt_us, smoothed_us, latest_us, var_us, max_ack_delay_us, pto_count, cwnd, bif: m_bif, .. } => {
+                    Ev::Metrics { path, min_rtt_us, smoothed_us, latest_us, var_us, max_ack_delay_us, pto_count, cwnd, bif: m_bif, .. } => {
                         let r = Rtt {
                             min: *min_rtt_us,
                             smoothed: *smoothed_us,
@@ -302,9 +334,15 @@ fn shadow_side(v: &View, idx: u32, role: Role, side: Side, sh: &mut Shadow) {
                             bif: *m_bif as u64,
                             t_ns: e.t_ns,
                         };
-                        // losses by time threshold: either the estimate before or the one after
-                        for (sx, pn, t_lost, t_sent, l) in pending_loss.drain(..) {
-                            let a = if have_metrics { judge_time(&rtt_prev, t_lost, t_sent) } else { (false, false) };
+                        // losses by time threshold: judged with the estimate of the path the packet
+                        // was sent on, either the one before or the one after the loss
+                        let mut keep = vec![];
+                        for (sx, pn, t_lost, t_sent, l, lpath, before) in pending_loss.drain(..) {
+                            if lpath != *path {
+                                keep.push((sx, pn, t_lost, t_sent, l, lpath, before));
+                                continue;
+                            }
+                            let a = before.map_or((false, false), |b| judge_time(&b, t_lost, t_sent));
                             let b = judge_time(&r, t_lost, t_sent);
                             if !(a.0 || b.0) {
                                 let tolerated = a.1 || b.1;
@@ -313,14 +351,16 @@ fn shadow_side(v: &View, idx: u32, role: Role, side: Side, sh: &mut Shadow) {
                                     "c09.lost_before_time_threshold",
                                     if tolerated { "time_threshold_shortened_by_timer_granularity" } else { "lost_before_packet_and_time_threshold" },
                                     format!(
-                                        "{who}: space {sx} pn {pn} declared lost {} us after it was sent, largest acked {l} (< pn+3), 9/8 x max(srtt,latest) = {} / {} us",
+                                        "{who}: space {sx} pn {pn} (path {lpath}) declared lost {} us after it was sent, largest acked {l} (< pn+3), 9/8 x max(srtt,latest) of its path = {:?} / {} us",
                                         (t_lost - t_sent) / 1000,
-                                        9 * rtt_prev.smoothed.max(rtt_prev.latest) / 8,
+                                        before.map(|x| 9 * x.smoothed.max(x.latest) / 8),
                                         9 * r.smoothed.max(r.latest) / 8
                                     ),
                                 ));
                             }
                         }
+                        pending_loss = keep;
+                        rtt_by_path.insert(*path, r);
                         if !multi_path {
                             // bytes in flight equals the unresolved congestion-controlled packets
                             sh.bif_checks += 1;
@@ -362,6 +402,32 @@ fn shadow_side(v: &View, idx: u32, role: Role, side: Side, sh: &mut Shadow) {
                                 // resynchronise so that one slip is reported once
                                 bif = r.bif;
                             }
+                            // C10 (CUBIC): a loss or ECN signal shrinks the window at most once per
+                            // round trip: the recovery period only ends when a packet sent after
+                            // its start is acknowledged, i.e. at least one RTT sample >= min_rtt
+                            // later. Collapses to the minimum window (persistent congestion) and
+                            // rescaling after an MTU change are something else.
+                            // (only reductions that coincide with a congestion signal count: in
+                            // congestion avoidance s2n-quic's CUBIC can also lower the window by
+                            // its own window function, without any signal)
+                            if !bbr && have_metrics && !cwnd_stale && r.cwnd < rtt_prev.cwnd && congestion_signal {
+                                let floor = 2 * 1200u64.max(mtu_hist.last().copied().unwrap_or(1200));
+                                if r.cwnd > floor {
+                                    if let Some(t0) = last_reduction_ns {
+                                        let gap = e.t_ns - t0;
+                                        if gap + 1_000_000 < r.min * 1000 {
+                                            sh.c10.push(viol(
+                                                "C10",
+                                                "c10.window_reduced_twice_in_one_rtt",
+                                                "two_reductions_within_min_rtt",
+                                                format!("{who}: congestion window reduced {} -> {} at {} us, only {} us after the previous reduction (min_rtt {} us)", rtt_prev.cwnd, r.cwnd, e.t_ns / 1000, gap / 1000, r.min),
+                                            ));
+                                        }
+                                    }
+                                    last_reduction_ns = Some(e.t_ns);
+                                    sh.reductions += 1;
+                                }
+                            }
                             // C10: window never below the controller's minimum
                             let mtu_min = mtu_hist.iter().rev().take(2).copied().min().unwrap_or(1200).min(1200).max(1200);
                             let k = if bbr { 4 } else { 2 };
@@ -374,33 +440,33 @@ fn shadow_side(v: &View, idx: u32, role: Role, side: Side, sh: &mut Shadow) {
                                 ));
                             }
                         }
-                        // RTT estimates stay within the samples
-                        if smoothed0.is_none() {
-                            smoothed0 = Some(r.smoothed);
-                            latest_seen.push(r.smoothed);
+                        // RTT estimates stay within the samples (per path)
+                        let seen = latest_by_path.entry(*path).or_default();
+                        if seen.is_empty() {
+                            seen.push(r.smoothed);
                         }
-                        latest_seen.push(r.latest);
-                        let lo = latest_seen.iter().copied().min().unwrap_or(0);
-                        let hi = latest_seen.iter().copied().max().unwrap_or(u64::MAX);
+                        seen.push(r.latest);
+                        let lo = seen.iter().copied().min().unwrap_or(0);
+                        let hi = seen.iter().copied().max().unwrap_or(u64::MAX);
                         if r.smoothed + 1 < lo || r.smoothed > hi + 1 {
                             sh.c09.push(viol(
                                 "C09",
                                 "c09.rtt_outside_samples",
                                 "smoothed_rtt_outside_sample_range",
-                                format!("{who}: smoothed_rtt {} us outside the samples seen [{lo}, {hi}] at {} us", r.smoothed, e.t_ns / 1000),
+                                format!("{who}: path {path} smoothed_rtt {} us outside the samples seen [{lo}, {hi}] at {} us", r.smoothed, e.t_ns / 1000),
                             ));
                         }
-                        if r.min > r.latest + 1 && latest_seen.len() > 2 {
+                        if r.min > r.latest + 1 && seen.len() > 2 {
                             sh.c09.push(viol(
                                 "C09",
                                 "c09.rtt_outside_samples",
                                 "min_rtt_above_latest",
-                                format!("{who}: min_rtt {} us > latest_rtt {} us at {} us", r.min, r.latest, e.t_ns / 1000),
+                                format!("{who}: path {path} min_rtt {} us > latest_rtt {} us at {} us", r.min, r.latest, e.t_ns / 1000),
                             ));
                         }
                         // PTO: consecutive expiries back off exponentially and never fire faster
                         // than the granularity
-                        if have_metrics && r.pto_count == rtt_prev.pto_count + 1 {
+                        if have_metrics && !multi_path && r.pto_count == rtt_prev.pto_count + 1 {
                             let base = (r.smoothed + (4 * r.var).max(1000)) * 1000;
                             if let Some((c0, t0, base0)) = pto_marks.last().copied() {
                                 // only once the application space is the only one left (the Initial and
@@ -429,6 +495,7 @@ fn shadow_side(v: &View, idx: u32, role: Role, side: Side, sh: &mut Shadow) {
                         } else if have_metrics && r.pto_count < rtt_prev.pto_count {
                             pto_marks.clear();
                         }
+                        congestion_signal = false;
                         rtt_prev = r;
                         have_metrics = true;
                         cwnd_stale = false;
@@ -438,18 +505,21 @@ fn shadow_side(v: &View, idx: u32, role: Role, side: Side, sh: &mut Shadow) {
             }
         }
     }
-    // losses still waiting for a following metrics event: judge against the last estimate
-    for (sx, pn, t_lost, t_sent, l) in pending_loss.drain(..) {
-        let a = judge_time(&rtt_prev, t_lost, t_sent);
-        if have_metrics && !a.0 {
+    // losses still waiting for a following metrics event of their path: judge against the last
+    // estimate of that path
+    for (sx, pn, t_lost, t_sent, l, lpath, before) in pending_loss.drain(..) {
+        let Some(b) = before.or(rtt_by_path.get(&lpath).copied()) else { continue };
+        let a = judge_time(&b, t_lost, t_sent);
+        if !a.0 {
             sh.c09.push(viol(
                 "C09",
                 "c09.lost_before_time_threshold",
                 if a.1 { "time_threshold_shortened_by_timer_granularity" } else { "lost_before_packet_and_time_threshold" },
-                format!("{who}: space {sx} pn {pn} declared lost {} us after it was sent, largest acked {l}", (t_lost - t_sent) / 1000),
+                format!("{who}: space {sx} pn {pn} (path {lpath}) declared lost {} us after it was sent, largest acked {l}", (t_lost - t_sent) / 1000),
             ));
         }
     }
+    let _ = (smoothed0, latest_seen);
 }
 
 pub fn c09(v: &View) -> Vec<Violation> {
